@@ -9,6 +9,29 @@ def sig_of(clause, op):
     return "c20:" + re.sub(r"-+", "-", re.sub(r"[^A-Za-z]+", "-", clause.split(":")[0]))[:70]
 
 
+def worker_record(ctx):
+    """'the mean reports total work over elapsed time' for the record a buyer / validator reads: the real GlobalHashrate (several
+    connections under one worker name, shares, resets) against Model/WorkerBook.lean, op by op"""
+    exe = L.build_harness(ctx, "hashrate")
+    if not exe:
+        return 0
+    rc, out = L.run_harness(ctx, exe, "TestVerifBook$", env={"VERIF_N": 300 if ctx.tier == "quick" else 6000}, timeout=600)
+    if rc != 0:
+        ctx.tie_failures.append("worker-record harness run failed (rc=%d): %s" % (rc, out[-300:]))
+        return 0
+    impl = ctx.out + "/book.impl.txt"
+    rc, err = L.drv("model", "book", impl, impl + ".model.txt")
+    if rc != 0:
+        ctx.tie_failures.append("driver model book failed: " + err[-200:])
+        return 0
+    for d in L.diff_cases(impl, impl + ".model.txt")[:1]:
+        L.violation(ctx, "c20:work-credited-to-a-worker-is-not-what-is-reported", "after %s the record reads %r, the model %r (per worker name: last share second, total work): work that was credited is no longer reported, or work is reported that was not credited" % (
+            L.last_op_before(d["lines"], d["first"])[2:], d["impl"][:120], d["other"][:120]),
+            {"clause": "the mean estimator reports total work over elapsed time", "case": d["header"],
+             "ops": [l for l in d["lines"][:d["first"] + 1] if l.startswith("> ")], "how_to_replay": "bin/check C20 --replay <this file>"})
+    return sum(1 for h, ls in L.parse_cases(impl) for l in ls if l.startswith("> "))
+
+
 def run(ctx):
     ctx.trusted_base += [
         "tools/gofacts: the eight conversions of hashrate.go translated to Gen.C20 over Rat, exact and with an explicit rounding function after every float operation",
@@ -31,6 +54,7 @@ def run(ctx):
         ctx.tie_failures.append("harness run failed (rc=%d): %s" % (rc, out[-500:]))
         return
     complaints = L.run_monitor(ctx, "c20", TRANSCRIPT)
+    ctx.coverage["worker_record_ops_compared"] = worker_record(ctx)
     L.handle_complaints(ctx, complaints, sig_of)
     # the mean estimator where it is used: the hashrate a running seller contract reports (closed loop of C09: real watcher,
     # allocator and schedulers over fake miners in virtual time) against the work that reached its destination
@@ -81,4 +105,7 @@ def run(ctx):
 
 
 def replay(ctx, path):
+    import json as _j
+    if _j.load(open(path)).get("signature", "").startswith("c20:work-credited"):
+        return L.generic_replay(ctx, path, "hashrate", "TestVerifBook$", "book", "book.impl.txt")
     return L.generic_replay(ctx, path, HDIR, TEST, "c20", TRANSCRIPT)
